@@ -11,12 +11,26 @@ import hashlib
 
 from .. import core, takio
 from ..core import cbool, clist, cz, czlist
-from . import c01gen, c06, c06gen
+from . import c01gen, c06gen
+
+
+
+class _Lazy:
+    """c06.py may import this module (to run its correspondence too): import c06 on first use"""
+
+    def __getattr__(self, name):
+        import importlib
+        return getattr(importlib.import_module("harness.props.c06"), name)
+
+
+c06 = _Lazy()
 
 ID = "T06"
 THEOREMS = ["T06_gen_encode_eq", "T06_gen_encode_outcomes", "T06_gen_vocabulary", "T06_py_getitem_is_py_index",
             "T06_gen_decode_encode", "T06_gen_reachable_encodes", "T06_gen_encode_injective",
-            "T06_gen_encode_distinct", "T06_gen_encode_swap", "T06_gen_tokens_byte"]
+            "T06_gen_encode_distinct", "T06_gen_encode_swap", "T06_gen_tokens_byte",
+            "T06_gen_decode_agrees", "T06_gen_decode_ok_iff", "T06_gen_decode_outcomes", "T06_gen_decode_go",
+            "T06_gen_round_trip"]
 MODEL_TARGETS = ["model/Tak.vo", "model/Road.vo", "model/PySem.vo", "model/Harness.vo", "model/Lit.vo",
                  "model/Encoding.vo", "gen/GameGen.vo", "gen/EncodingGen.vo"]
 TRUSTED_BASE = [
@@ -24,8 +38,9 @@ TRUSTED_BASE = [
     "`head, *rest = l`, range) - validated against CPython by T01's and this correspondence",
     "harness/py2coq.py: statements -> Gallina scheme, class-level constants as definitions evaluated in order; "
     "validated by running the generated encode against the implementation",
-    "decode is NOT translated (torch tensor, float square root, from_squares): the decode of the transported theorems "
-    "is the hand model's, tied by C06's differential correspondence",
+    "decode: a 1-d integer torch tensor is the list of its entries (t[i] = py_getitem incl. IndexError, .item() / "
+    ".numpy() the identity); int(n ** (1 / 2)) is Z.sqrt for 0 <= n < 2^52 and Unmodelled outside; tuple(l) is modelled "
+    "for two elements - validated by running the generated decode against the implementation (exception CLASSES compared)",
 ]
 ASSUMPTIONS = [
     "gen_encode_eq has no domain guard; the transported lossless / injective clauses keep C06's guard `encodable`",
@@ -57,6 +72,16 @@ Definition ecase := (position * eobs * eobs)%type.
 Definition echk (c : ecase) : bool :=
   let '(p, a, b) := c in same (EncodingGen.encode p true) a && same (EncodingGen.encode p false) b.
 Definition eview (c : ecase) := let '(p, a, b) := c in (EncodingGen.encode p true, EncodingGen.encode p false).
+(* decode: a token list and what decode(torch.tensor(l)) did: a position, one of the four exception classes, or other *)
+Inductive dobs := DOk (p : position) | DRaise (e : exn) | DOther.
+Definition dsame (r : res position) (o : dobs) : bool :=
+  match r, o with
+  | Ok p, DOk q => position_eqb p q
+  | Crash e, DRaise e' => exn_eqb e e'
+  | _, _ => false
+  end.
+Definition dchk (c : list Z * dobs) : bool := dsame (EncodingGen.decode (fst c)) (snd c).
+Definition dview (c : list Z * dobs) := EncodingGen.decode (fst c).
 """
 
 SEM_HEADER = """From Coq Require Import ZArith String List Bool.
@@ -137,6 +162,24 @@ def enc_cases(run, triples, name="encode"):
     return cs, stats
 
 
+def _dobs(o):
+    if o[0] == "ok":
+        return f"(DOk {takio.c_pos(o[1])})"
+    return f"(DRaise {o[1]})" if o[0] == "raise" else "DOther"
+
+
+def dec_cases(run, streams, name="decode"):
+    _, torch, enc = c06._impl()
+    cs = core.Cases(ID, name, HEADER, "list Z * dobs", "dchk", show="dview", shard=150)
+    dist = {}
+    for toks, kind in streams:
+        o = c06.obs_decode(torch, enc, toks, dtype=torch.int64 if any(t > 255 or t < 0 for t in toks) else None)
+        k = "ok" if o[0] == "ok" else o[1]
+        dist[k] = dist.get(k, 0) + 1
+        cs.add(f"({czlist(toks)}, {_dobs(o)})", {"tokens": list(toks), "kind": kind, "impl": c06.j_obs(o)})
+    return cs, dist
+
+
 def correspondence(run):
     err = _STATE.get("err", "unset")
     if err == "unset":
@@ -161,6 +204,33 @@ def correspondence(run):
               "sentinel on c06's positions: playouts of sizes 3-6, constructed boards (stacks to height 40), "
               "out-of-domain reserves / capstones (IndexError or negative wrap), boards that are not size^2; "
               "non-trivial = a stack of height >= 2, an exception, or out of domain", st["samples"], st["dist"], label="encode")
+    # decode: the encodings of the in-domain positions (with and without sentinel) and malformed streams
+    _, _, enc = c06._impl()
+    good = []
+    for p, kind in pool:
+        for sflag in (True, False):
+            o = c06.obs_encode(enc, p, sflag)
+            if o[0] == "ok":
+                good.append(o[1])
+    streams = [(g, "encoding") for g in good[:400 if run.quick else 3000]]
+    streams += [(t, "malformed") for t in c06.malformed_streams(run.rng, enc, good, 500 if run.quick else 4000)]
+    streams += [([], "fixed"), ([255], "fixed"), ([9], "fixed"), ([255, 9, 203, 253, 203, 253], "fixed"),
+                ([9, 203, 253, 203, 253] + [0] * 81, "fixed"), ([9, 203, 253, 203, 253] + [0] * 100, "fixed")]
+    cd, ddist = dec_cases(run, streams)
+    dfail, dshard, dn = cd.run()
+    run.oblige(f"correspondence:generated-decode-vs-implementation ({dn} shards)", not dshard, str(dshard)[:1500])
+    run.count(len(cd), len({tuple(m["tokens"]) for m in cd.metas}),
+              "EncodingGen.decode (the translated source, evaluated in Coq) vs encoding.decode(torch.tensor(l)): same "
+              "position, or the same exception CLASS (IndexError / AssertionError / KeyError / AttributeError); "
+              "encodings of c06's positions and c06's malformed streams (mutated encodings, random headers, bodies of "
+              "0..100 squares, a buried-flat token first), 9x9 and 10x10 boards (IndexError from DEFAULT_PIECES)",
+              [{"tokens": m["tokens"][:12], "impl": m["impl"] if not isinstance(m["impl"], dict) or "exception" in m["impl"] else "position"}
+               for m in cd.metas[-4:-1]], ddist, label="decode")
+    for meta in dfail[:4]:
+        run.violation("decode:" + hashlib.sha256(repr(meta["tokens"]).encode()).hexdigest()[:12], {
+            "clause": "the decode translated from the source, evaluated in Coq, reproduces what the implementation does",
+            "input": {"tokens": meta["tokens"]}, "impl": meta["impl"], "generator": meta["kind"],
+            "generated_function_view": cd.model_view(cd.terms[cd.metas.index(meta)])})
     for meta in failing[:6]:
         term = cs.terms[cs.metas.index(meta)]
         run.violation("encode:" + c06.pos_key(takio.mk_pos(meta["position"])), {
